@@ -106,17 +106,54 @@ def run(idx: ProgramIndex, rep: Report, tier: str):
         if fw is not None:
             ok = all(isinstance(r.value, ast.Call) and isinstance(r.value.func, ast.Attribute) and r.value.func.attr == "forward" and src(r.value.func.value) == "super()" for r in ast.walk(fw.node) if isinstance(r, ast.Return))
             rep.add("C15-2", "%s:%s.forward" % (C.module.name, cname), fw.where, ok, "delegates to the shared assembly" if ok else "%s.forward no longer delegates to _ApproximateMarginalLogLikelihood.forward" % cname, {})
-    # C15-3
+    # C15-3: the in-place update of every parameter is  p += (-1 * lr * num_data) * p.grad   (affine form on inlined expressions)
+    from ..symbolic import inline, walk_paths
     G = idx.find_class("NGD")
     st = idx.method(G, "step", own=True)
-    calls = [c for c in calls_in(st.node) if isinstance(c.func, ast.Attribute) and c.func.attr == "add_" and src(c.func.value) == "p"]
-    ok = len(calls) == 1 and src(calls[0].args[0]) == "p.grad"
-    if ok:
-        al = [k.value for k in calls[0].keywords if k.arg == "alpha"]
-        t = norm(al[0]) if al else ""
-        ok = bool(al) and "self.num_data" in t and "group['lr']" in t.replace('"', "'") and t.replace(" ", "").startswith("-") or (bool(al) and t.replace(" ", "").startswith("(-"))
-        ok = ok and "self.num_data" in t and "lr" in t
-    rep.add("C15-3", "%s:NGD.step" % G.module.name, st.where, ok, "p += -(lr * num_data) * p.grad" if ok else "NGD.step is not `p.add_(p.grad, alpha=-lr * num_data)`", {})
+    sn = st.params[0]
+    updates = 0
+    uprobs = []
+
+    def classify_ngd(e, _aliases=None):
+        if isinstance(e, ast.Attribute) and e.attr == "grad":
+            return ("source", "GRAD")
+        if isinstance(e, ast.Subscript) and isinstance(e.slice, ast.Constant) and e.slice.value == "lr":
+            return ("symbol", "lr")
+        if chain(e) == "%s.num_data" % sn:
+            return ("symbol", "N")
+        return None
+
+    want = {("GRAD", (("N", 1), ("lr", 1))): Fraction(-1)}
+    for path, seq in walk_paths(st):
+        for stx, env in seq:
+            if not isinstance(stx, ast.stmt):
+                continue
+            delta = None
+            target = None
+            if isinstance(stx, ast.Expr) and isinstance(stx.value, ast.Call) and isinstance(stx.value.func, ast.Attribute) and stx.value.func.attr in ("add_", "sub_") and stx.value.args:
+                c = stx.value
+                target = inline(c.func.value, env)
+                arg = inline(c.args[0], env)
+                alpha = [inline(k.value, env) for k in c.keywords if k.arg == "alpha"]
+                e = ast.BinOp(left=arg, op=ast.Mult(), right=alpha[0]) if alpha else arg
+                delta = ast.UnaryOp(op=ast.USub(), operand=e) if c.func.attr == "sub_" else e
+            elif isinstance(stx, ast.AugAssign) and isinstance(stx.op, (ast.Add, ast.Sub)):
+                target = inline(stx.target, env) if not isinstance(stx.target, ast.Name) else env.get(stx.target.id, stx.target)
+                e = inline(stx.value, env)
+                delta = ast.UnaryOp(op=ast.USub(), operand=e) if isinstance(stx.op, ast.Sub) else e
+            if delta is None:
+                continue
+            # only updates of the optimised parameters (items of group["params"])
+            if "params" not in src(target):
+                continue
+            updates += 1
+            v = AffineEval(classify_ngd).ev(delta)
+            if not (isinstance(v, Affine) and v.terms == want):
+                uprobs.append("the step is `%s` = %s, expected -lr*num_data*grad" % (src(stx)[:60], v.show() if isinstance(v, Affine) else "unrecognised"))
+            if not (isinstance(delta, ast.AST) and any(isinstance(x, ast.Attribute) and x.attr == "grad" and src(x.value) == src(target) for x in ast.walk(delta))):
+                uprobs.append("the gradient in `%s` is not the gradient of the updated parameter" % src(stx)[:60])
+    ok = updates >= 1 and not uprobs
+    rep.add("C15-3", "%s:NGD.step" % G.module.name, st.where, ok, "p += -(lr * num_data) * p.grad" if ok else ("NGD.step: " + ("; ".join(sorted(set(uprobs))) or "no in-place update of the parameters found")), {})
 
     from .common_alias import aliasing_obligations
     funcs = []
